@@ -5,20 +5,23 @@ Mirrors `zy.go main` → `cmd/root.go RunScriptFile` → `runtime/vm.go LoadAndR
 (`NewVM`: `acl = func(c) { parser.ShowControl(c); os.Exit(1) }`) / `std/php/core/exit.go` (`os.Exit(code)`) /
 `data/output.go DefaultOutputWriter` (`fmt.Print`: an unbuffered write to file descriptor 1) /
 `std/php/core/ob_start.go` (`ob_start` swaps `data.WriteOutput` for an append to an in-memory buffer;
-`data.FlushAllBuffersFn`, which `LoadAndRun` would call at the end, is never assigned anywhere in the tree, and the
-`os.Exit` paths do not go through it anyway).
+`core.FlushAllBuffers` = `data.FlushAllBuffersFn` writes what is still buffered, outermost buffer first; `LoadAndRun`
+calls it after `program.GetValue` returns, and — fix `C05-flush-buffers-before-exit` — so do the VM's default
+handler before `ShowControl; os.Exit(1)` and `exit()` before `os.Exit(code)`).
 
 What the script does is abstracted to the sequence of output-relevant steps it performs and the way it ends.
 -/
 namespace Model.Cli
 
-/-- `returnsErr` = fix `C05-cli-exit-status` (RunScriptFile returns an error instead of nil) -/
+/-- `returnsErr` = fix `C05-cli-exit-status` (RunScriptFile returns an error instead of nil);
+`flushOnExit` = fix `C05-flush-buffers-before-exit` (the `os.Exit` paths flush the open output buffers first) -/
 structure Cfg where
   returnsErr : Bool
+  flushOnExit : Bool
 deriving DecidableEq, Repr
 
-def Cfg.fixed : Cfg := ⟨true⟩
-def Cfg.pinned : Cfg := ⟨false⟩
+def Cfg.fixed : Cfg := ⟨true, true⟩
+def Cfg.pinned : Cfg := ⟨false, false⟩
 
 inductive Step where
   | echo (m : Nat)      -- data.WriteOutput(s)
@@ -67,17 +70,23 @@ def runSteps (steps : List Step) : OutSt := steps.foldl step ⟨[], []⟩
 /-- `zy.go`: `if err := cmd.RunScriptFile(path); err != nil { os.Exit(1) }; return` -/
 def mainExit (err : Bool) : Nat := if err then 1 else 0
 
-/-- `RunScriptFile` + the ways the process can end underneath it. Nothing flushes the `ob_start` buffers. -/
+/-- `core.FlushAllBuffers`: the pending buffers reach fd 1, outermost first -/
+def flushed (o : OutSt) : List Nat := o.fd1 ++ o.bufs.reverse.flatten
+
+/-- what is on fd 1 when the process ends through `os.Exit` from inside the interpreter -/
+def atExit (cfg : Cfg) (o : OutSt) : List Nat := if cfg.flushOnExit then flushed o else o.fd1
+
+/-- `RunScriptFile` + the ways the process can end underneath it -/
 def exitOf (cfg : Cfg) : Input → Proc
   | .missing => ⟨[], true, mainExit cfg.returnsErr⟩          -- message on stderr (help text on stdout not modelled)
   | .parseError => ⟨[], true, mainExit cfg.returnsErr⟩       -- ShowControl(err); RunShutdownCallbacks; return
   | .script steps e =>
     let o := runSteps steps
     match e with
-    | .normal => ⟨o.fd1, false, mainExit false⟩
-    | .uncaught => ⟨o.fd1, true, 1⟩                          -- acl: ShowControl; os.Exit(1)
-    | .exit n => ⟨o.fd1, false, n⟩                           -- os.Exit(n)
-    | .lateControl => ⟨o.fd1, true, mainExit cfg.returnsErr⟩
-    | .goPanic => ⟨o.fd1, true, 2⟩
+    | .normal => ⟨flushed o, false, mainExit false⟩          -- LoadAndRun: FlushAllBuffersFn()
+    | .uncaught => ⟨atExit cfg o, true, 1⟩                   -- acl: (flush;) ShowControl; os.Exit(1)
+    | .exit n => ⟨atExit cfg o, false, n⟩                    -- exit(): (flush;) os.Exit(n)
+    | .lateControl => ⟨flushed o, true, mainExit cfg.returnsErr⟩
+    | .goPanic => ⟨o.fd1, true, 2⟩                           -- the Go runtime aborts: nothing is flushed
 
 end Model.Cli
